@@ -16,6 +16,7 @@ import GPVerif.Bridge.GradGrad
 import GPVerif.Bridge.NewtonGirard
 import GPVerif.Gen.Formulas
 import GPVerif.Bridge.GenKernels
+import GPVerif.Bridge.GenAxes
 
 namespace C05
 open Scalar Kernels Gen.Formulas
@@ -188,6 +189,285 @@ theorem constant_gen_eq_spec (a b : List ℝ) (c : ℝ) :
   simp [constantK, constantKDiag, Kern.eval]
 
 end generated
+
+/-! ### axis-aware regenerated `forward` methods (`Gen/KernelAxes.lean`, `harness/translate/g5_axes.py`)
+
+Every tensor of these `forward` methods was executed as an index function over its symbolic trailing shape (unsqueeze,
+transpose, view, broadcasting, `sum(dim)`, `prod(dim)`, `diagonal`, `cat`, slicing are executed, not assumed); the theorems
+say that the resulting entry (i, j) is the documented `Spec` of rows i and j. -/
+
+section generatedAxes
+open Gen.KernelAxes
+
+/-- `SpectralMixtureKernel.forward` (full and diag): product over input dimensions of the one-dimensional mixtures, for
+every number of mixtures and every input dimension; `mixture_means` / `mixture_scales` in the module's `[mixture][dimension]`
+layout, the Spec's `[dimension][mixture]` layout being their transpose -/
+theorem spectralMixture_gen_eq_spec (a b w : List ℝ) (mus scs : List (List ℝ)) (hb : b.length = a.length) :
+    spectralMixture a b w mus scs = smSpec w (transposeL a.length w.length mus) (transposeL a.length w.length scs) a b ∧
+    spectralMixtureDiag a b w mus scs = smSpec w (transposeL a.length w.length mus) (transposeL a.length w.length scs) a b := by
+  unfold transposeL
+  rw [smSpec_eq_prod w a b _ _ hb]
+  constructor <;>
+  · simp only [spectralMixture, spectralMixtureDiag, prodR_eq, sumR_eq]
+    apply Finset.prod_congr rfl
+    intro l _
+    rw [smDim_eq_sum _ _ _ _ (by simp) (by simp)]
+    apply Finset.sum_congr rfl
+    intro q hq
+    have hq' := Finset.mem_range.mp hq
+    simp only [nth_tab _ _ _ hq', exp_real, cos_real, pi_real, lit_real, npow_real]
+    push_cast
+    ring_nf
+
+/-- `HammingIMQKernel.forward`: the view `(…, T, V)` of the flattened one-hot rows, the double sum over tokens and vocabulary,
+`clamp_min_(0)` and the IMQ transform give the documented kernel — full matrix (`x1 ≠ x2`, and the off-diagonal entries when
+`x1 = x2`) and the `diag=True, x1 ≠ x2` branch; `hd` (the clamp is inactive) holds for one-hot rows -/
+theorem hamming_gen_eq_spec (V : ℕ) (a b : List ℝ) (α β : ℝ) (hlen : a.length = b.length)
+    (hV : a.length / V * V = a.length) (hd : dot a b ≤ ((a.length / V : ℕ) : ℝ)) :
+    hamming V a b α β = hammingSpec V α β a b ∧ hammingSameOff V a b α β = hammingSpec V α β a b ∧
+    hammingDiagOther V a b α β = hammingSpec V α β a b := by
+  have hm : Max.max ((((a.length / V : ℕ) : ℚ) : ℝ) - dot a b) (((0 : ℚ)) : ℝ) = (((a.length / V : ℕ) : ℚ) : ℝ) - dot a b := by
+    apply max_eq_left; push_cast; linarith
+  refine ⟨?_, ?_, ?_⟩ <;>
+  · simp only [hamming, hammingSameOff, hammingDiagOther, hammingSpec, hammingDist, hamming_core V a b hlen hV, max_real,
+      lit_real, rpow_real, hm]
+
+/-- the diagonal under `x1 = x2`: the zero-filled entry of the full matrix and the `diag=True` shortcut `((1+α)/α)^β` are the
+kernel of a row with itself whenever its Hamming distance to itself is 0 (`⟨a,a⟩ = T`, true of one-hot rows) -/
+theorem hamming_gen_diag_eq_spec (V : ℕ) (a : List ℝ) (α β : ℝ) (h0 : dot a a = ((a.length / V : ℕ) : ℝ)) :
+    hammingSameDiag V a a α β = hammingSpec V α β a a ∧ hammingDiagSame V a a α β = hammingSpec V α β a a := by
+  constructor <;>
+  · simp only [hammingSameDiag, hammingDiagSame, hammingSpec, hammingDist, max_real, lit_real, rpow_real, h0]
+    push_cast
+    simp
+
+/-- `GaussianSymmetrizedKLKernel` (`DistributionalInputKernel.forward` with `_symmetrized_kl`, full and diag): slicing into
+means / log-variances, the two unsqueezes, the sum over the distribution dimension and the final transpose give
+`exp(−symKL/ℓ)` of rows i and j, with the jitter the code uses (the float64 `1e-8`) -/
+theorem gskl_gen_eq_spec (a b : List ℝ) (l : ℝ) (hlen : b.length = a.length) (hev : a.length / 2 * 2 = a.length) :
+    gskl a b l = gsklSpecE (((3022314549036573 / 302231454903657293676544 : ℚ)) : ℝ) l a b ∧
+    gsklDiag a b l = gsklSpecE (((3022314549036573 / 302231454903657293676544 : ℚ)) : ℝ) l a b := by
+  have e1 : (a.take (a.length / 2)).length = a.length / 2 := by simp; omega
+  have e2 : (a.drop (a.length / 2)).length = a.length / 2 := by simp; omega
+  have e3 : (b.take (a.length / 2)).length = a.length / 2 := by simp; omega
+  have e4 : (b.drop (a.length / 2)).length = a.length / 2 := by simp; omega
+  constructor <;>
+  · simp only [gskl, gsklDiag, gsklSpecE, sumR_eq, exp_real, lit_real, npow_real]
+    rw [symKLe_eq_sum _ _ _ _ _ (by rw [e2, e1]) (by rw [e3, e1]) (by rw [e4, e1]), e1]
+    congr 2
+    apply congrArg
+    apply Finset.sum_congr rfl
+    intro k hk
+    have hk' : k < a.length / 2 := Finset.mem_range.mp hk
+    simp only [nth_take _ _ _ hk', nth_drop]
+    push_cast
+    rw [one_div_div]
+
+/-- the documented Spec (jitter written `10⁻⁸`) is the parameterised one at `10⁻⁸` -/
+theorem gsklSpec_eq_gsklSpecE (l : ℝ) (a b : List ℝ) : gsklSpec l a b = gsklSpecE (lit (1 / 10 ^ 8)) l a b := by
+  simp only [gsklSpec, gsklSpecE, symKL_eq_symKLe]
+
+/-- `ArcKernel.forward` with the default `delta_func` (full and diag): `embedding` (div, sin / cos, radius, mask of ones,
+`cat`) is `arcEmbed`, and the base kernel is applied to the embedded rows i and j -/
+theorem arc_gen_eq_spec (base : List ℝ → List ℝ → ℝ) (a b ls an ra : List ℝ) (hb : b.length = a.length)
+    (h1 : ls.length = a.length) (h2 : an.length = a.length) (h3 : ra.length = a.length) :
+    arc base a b ls an ra = base (arcEmbed ls an ra a) (arcEmbed ls an ra b) ∧
+    arcDiag base a b ls an ra = base (arcEmbed ls an ra a) (arcEmbed ls an ra b) := by
+  rw [arcEmbed_eq_tab ls an ra a h1 h2 h3, arcEmbed_eq_tab ls an ra b (h1.trans hb.symm) (h2.trans hb.symm) (h3.trans hb.symm), hb]
+  constructor <;>
+  · simp only [arc, arcDiag, sin_real, cos_real, pi_real, lit_real]
+    congr 2 <;> (apply tab_congr; intro k _; push_cast; ring_nf)
+
+/-- the same with a custom `delta_func`: its values on the two rows multiply the sin and the cos half of the embedding -/
+theorem arcMasked_gen_eq_spec (base : List ℝ → List ℝ → ℝ) (a b m1 m2 ls an ra : List ℝ) (hb : b.length = a.length)
+    (h1 : ls.length = a.length) (h2 : an.length = a.length) (h3 : ra.length = a.length)
+    (hm1 : m1.length = a.length) (hm2 : m2.length = a.length) :
+    arcMasked base a b m1 m2 ls an ra = base (arcEmbedMasked ls an ra a m1) (arcEmbedMasked ls an ra b m2) ∧
+    arcMaskedDiag base a b m1 m2 ls an ra = base (arcEmbedMasked ls an ra a m1) (arcEmbedMasked ls an ra b m2) := by
+  unfold arcEmbedMasked
+  rw [arcEmbed_eq_tab ls an ra a h1 h2 h3, arcEmbed_eq_tab ls an ra b (h1.trans hb.symm) (h2.trans hb.symm) (h3.trans hb.symm), hb]
+  simp only [rowMul]
+  rw [zip_append _ _ _ _ _ (by simp [hm1]), zip_append _ _ _ _ _ (by simp [hm2])]
+  rw [← hm1, zip_tab_left, zip_tab_left, hm1, ← hm2, zip_tab_left, zip_tab_left, hm2]
+  constructor <;>
+  · simp only [arcMasked, arcMaskedDiag, sin_real, cos_real, pi_real]
+    congr 2 <;> (apply tab_congr; intro k _; push_cast; ring_nf)
+
+/-- `CylindricalKernel.forward` (full and diag, all radii ≤ 1): norms, normalised rows, Gram entry, the loop over the angular
+weights (iteration 0 executed, iterations `p ≥ 1` symbolic — every number of weights) and the Kumaraswamy-warped radial
+kernel give `radial(kuma‖a‖, kuma‖b‖) · Σ_p w_p (âᵀb̂)^p`; `jit` (the code's `t[t == 0] = t + eps`) is the identity on rows
+without an exactly-zero coordinate -/
+theorem cylindrical_gen_eq_spec (radial : List ℝ → List ℝ → ℝ) (jit : ℝ → ℝ → ℝ) (a b w : List ℝ) (α β ε : ℝ)
+    (hb : b.length = a.length) (ha0 : ∀ k, jit (nth a k) ε = nth a k) (hb0 : ∀ k, jit (nth b k) ε = nth b k) :
+    cylindrical radial jit a b w α β ε
+      = radial [kuma α β ε (Kernels.norm a)] [kuma α β ε (Kernels.norm b)]
+          * angular (dot (rowDivS a (Kernels.norm a)) (rowDivS b (Kernels.norm b))) w 0 ∧
+    cylindricalDiag radial jit a b w α β ε
+      = radial [kuma α β ε (Kernels.norm a)] [kuma α β ε (Kernels.norm b)]
+          * angular (dot (rowDivS a (Kernels.norm a)) (rowDivS b (Kernels.norm b))) w 0 := by
+  have hn : ∀ x : List ℝ, (∀ k, jit (nth x k) ε = nth x k) →
+      Real.sqrt (∑ k ∈ Finset.range x.length, jit (nth x k) ε ^ 2) = Kernels.norm x := by
+    intro x hx; rw [norm_eq]; simp only [hx]
+  have hang : loopFrom1 w.length (nth w 0)
+      (fun p acc => acc + nth w p * (dot (rowDivS a (Kernels.norm a)) (rowDivS b (Kernels.norm b))) ^ p)
+      = angular (dot (rowDivS a (Kernels.norm a)) (rowDivS b (Kernels.norm b))) w 0 := by
+    rw [loopFrom1_add, angular_eq_sum]
+    cases w with
+    | nil => simp
+    | cons x w =>
+      rw [List.length_cons, Finset.sum_range_succ']
+      simp [add_comm]
+  constructor <;>
+  · simp only [cylindrical, cylindricalDiag, sumR_eq, npow_real, sqrt_real, rpow_real, lit_real]
+    rw [hn a ha0, ← hb, hn b hb0, hb, ← dot_rowDivS_eq a b _ _ hb, hang]
+    simp only [kuma, rpow_real, lit_real]
+
+/-- the generated Arc / Cylindrical terms with the sub-kernel instantiated by a kernel expression are `Kern.eval` -/
+theorem arc_cyl_gen_eq_kern_eval (base : Kern ℝ) (a b ls an ra w : List ℝ) (α β ε : ℝ) (jit : ℝ → ℝ → ℝ)
+    (hb : b.length = a.length) (h1 : ls.length = a.length) (h2 : an.length = a.length) (h3 : ra.length = a.length)
+    (hl : ls.length ≠ 1) (ha0 : ∀ k, jit (nth a k) ε = nth a k) (hb0 : ∀ k, jit (nth b k) ε = nth b k) :
+    arc base.eval a b ls an ra = (Kern.arc base ls an ra).eval a b ∧
+    cylindrical base.eval jit a b w α β ε = (Kern.cyl base w α β ε).eval a b := by
+  have bc : ∀ v : List ℝ, v.length = a.length → bcast v a.length = v ∧ bcast v b.length = v := by
+    intro v hv
+    have : v.length ≠ 1 := by rw [hv, ← h1]; exact hl
+    constructor <;> (unfold bcast; split <;> simp_all)
+  constructor
+  · rw [(arc_gen_eq_spec base.eval a b ls an ra hb h1 h2 h3).1]
+    simp only [Kern.eval, (bc ls h1).1, (bc an h2).1, (bc ra h3).1, (bc ls h1).2, (bc an h2).2, (bc ra h3).2]
+  · rw [(cylindrical_gen_eq_spec base.eval jit a b w α β ε hb ha0 hb0).1]
+    simp only [Kern.eval]
+
+/-- **block assembly of `RBFKernelGrad.forward`** (full matrix, `x1` not `x2`, every `n1`, `n2`, `d`, ARD): the generated
+matrix — `K = zeros`, the four blocks written by slice assignment through `view` / `transpose` / `reshape` / `repeat` and a
+Kronecker product, then `K[..., pi1, :][..., :, pi2]` with `pi = arange(n(d+1)).view(d+1, n).t().reshape(n(d+1))` — has at
+position `(i·(d+1)+k, j·(d+1)+l)` exactly the documented covariance `cov(∂ᵏf(x1ᵢ), ∂ˡf(x2ⱼ))` (`rbfGradEntry`, whose entries are
+the partial derivatives of the RBF kernel by `rbfGrad_entries_are_partials`) -/
+theorem rbfGrad_matrix_gen_eq_entry (n1 n2 d : ℕ) (X1 X2 : List (List ℝ)) (ls : List ℝ) (i j k l : ℕ)
+    (hi : i < n1) (hj : j < n2) (hk : k ≤ d) (hl : l ≤ d)
+    (hx1 : (X1.getD i []).length = d) (hx2 : (X2.getD j []).length = d) (hls : ls.length = d)
+    (distf : List ℝ → List ℝ → ℝ) :
+    rbfGradMatrix sqDist distf n1 n2 d X1 X2 ls (gradIdx (d + 1) i k) (gradIdx (d + 1) j l)
+      = rbfGradEntry ls (X1.getD i []) (X2.getD j []) k l := by
+  have hv := rbf_block_value (X1.getD i []) (X2.getD j []) ls d hx1 hx2 hls
+  unfold rbfGradMatrix gradIdx
+  rw [Nat.add_comm 1 d, shuffle_at_gradIdx n1 (d + 1) i k (by omega), shuffle_at_gradIdx n2 (d + 1) j l (by omega)]
+  have hi' : ¬ n1 ≤ i := by omega
+  have hj' : ¬ n2 ≤ j := by omega
+  have gl : ∀ q, q < d → ls.getD q (Scalar.lit 1 : ℝ) = nth ls q := fun q hq => getD_one_eq_nth ls q (by omega)
+  cases k with
+  | zero =>
+    simp only [Nat.zero_mul, Nat.zero_add]
+    cases l with
+    | zero =>
+      simp only [Nat.zero_mul, Nat.zero_add]
+      unfold rbfGradBlocks
+      simp only [nth2, exp_real, lit_real, npow_real, hi, hj, hi', hj', not_true_eq_false, not_false_eq_true, false_and,
+        and_false, and_self, if_false, if_true]
+      rw [hv]; simp [rbfGradEntry]
+    | succ l =>
+      obtain ⟨c2, c3, c4⟩ := block_index n2 j l hj
+      generalize (l + 1) * n2 + j = C at c2 c3 c4 ⊢
+      have c2' : n2 ≤ C := by omega
+      unfold rbfGradBlocks
+      simp only [nth2, exp_real, lit_real, npow_real, hi, hi', c2, c2', c3, c4, not_true_eq_false, not_false_eq_true,
+        false_and, and_false, and_self, and_true, true_and, if_false, if_true]
+      rw [hv, scaled_diff]
+      simp only [rbfGradEntry, gradOuter, gl l (by omega)]
+      simp [nth]
+  | succ k =>
+    obtain ⟨r2, r3, r4⟩ := block_index n1 i k hi
+    generalize (k + 1) * n1 + i = R at r2 r3 r4 ⊢
+    have r2' : n1 ≤ R := by omega
+    cases l with
+    | zero =>
+      simp only [Nat.zero_mul, Nat.zero_add]
+      unfold rbfGradBlocks
+      simp only [nth2, exp_real, lit_real, npow_real, hj, hj', r2, r2', r3, r4, not_true_eq_false, not_false_eq_true,
+        false_and, and_false, and_self, and_true, true_and, if_false, if_true]
+      rw [hv, scaled_diff]
+      simp only [rbfGradEntry, gradOuter, gl k (by omega)]
+      simp [nth]
+    | succ l =>
+      obtain ⟨c2, c3, c4⟩ := block_index n2 j l hj
+      generalize (l + 1) * n2 + j = C at c2 c3 c4 ⊢
+      have c2' : n2 ≤ C := by omega
+      unfold rbfGradBlocks
+      simp only [nth2, exp_real, lit_real, npow_real, r2, r2', r3, r4, c2, c2', c3, c4, not_true_eq_false, not_false_eq_true,
+        false_and, and_false, and_self, and_true, true_and, if_false, if_true]
+      rw [hv, scaled_diff, scaled_diff]
+      simp only [rbfGradEntry]
+      congr 1
+      simp only [gradOuter, delta, gl k (by omega), gl l (by omega)]
+      simp only [nth, sq_real, lit_real]
+      by_cases hkl : k = l
+      · subst hkl; simp only [if_true]; push_cast; ring
+      · simp only [if_neg hkl]; push_cast; ring
+
+/-- **block assembly of `Matern52KernelGrad.forward`** (full matrix, `x1` not `x2`, every `n1`, `n2`, `d`, ARD): the generated
+matrix (blocks by slice assignment, in-place `mul_` / `sub_`, Kronecker product, final perfect shuffle) has at position
+`(i·(d+1)+k, j·(d+1)+l)` the docstring formula `matern52GradEntry` (the partial derivatives of the Matérn-5/2 kernel by
+`matern52Grad_entries_are_partials`) -/
+theorem matern52Grad_matrix_gen_eq_entry (n1 n2 d : ℕ) (X1 X2 : List (List ℝ)) (ls : List ℝ) (i j k l : ℕ)
+    (hi : i < n1) (hj : j < n2) (hk : k ≤ d) (hl : l ≤ d)
+    (hx1 : (X1.getD i []).length = d) (hx2 : (X2.getD j []).length = d) (hls : ls.length = d)
+    (sqd : List ℝ → List ℝ → ℝ) :
+    matern52GradMatrix sqd Scalar.dist n1 n2 d X1 X2 ls (gradIdx (d + 1) i k) (gradIdx (d + 1) j l)
+      = matern52GradEntry ls (X1.getD i []) (X2.getD j []) k l := by
+  have hv := matern_block_dist (X1.getD i []) (X2.getD j []) ls d hx1 hx2 hls
+  unfold matern52GradMatrix gradIdx
+  rw [Nat.add_comm 1 d, shuffle_at_gradIdx n1 (d + 1) i k (by omega), shuffle_at_gradIdx n2 (d + 1) j l (by omega)]
+  have hi' : ¬ n1 ≤ i := by omega
+  have hj' : ¬ n2 ≤ j := by omega
+  have gl : ∀ q, q < d → ls.getD q (Scalar.lit 1 : ℝ) = nth ls q := fun q hq => getD_one_eq_nth ls q (by omega)
+  cases k with
+  | zero =>
+    simp only [Nat.zero_mul, Nat.zero_add]
+    cases l with
+    | zero =>
+      simp only [Nat.zero_mul, Nat.zero_add]
+      unfold matern52GradBlocks
+      simp only [nth2, hi, hj, hi', hj', not_true_eq_false, not_false_eq_true, false_and,
+        and_false, and_self, if_false, if_true, hv]
+      simp only [matern52GradEntry, maternOfDist, exp_real, sqrt_real, lit_real, npow_real, sq_real]
+      push_cast; ring
+    | succ l =>
+      obtain ⟨c2, c3, c4⟩ := block_index n2 j l hj
+      generalize (l + 1) * n2 + j = C at c2 c3 c4 ⊢
+      have c2' : n2 ≤ C := by omega
+      unfold matern52GradBlocks
+      simp only [nth2, hi, hi', c2, c2', c3, c4, not_true_eq_false, not_false_eq_true,
+        false_and, and_false, and_self, and_true, true_and, if_false, if_true, hv]
+      simp only [matern52GradEntry, gradOuter, gl l (by omega)]
+      simp only [nth, exp_real, sqrt_real, lit_real, npow_real, sq_real]
+      push_cast; ring
+  | succ k =>
+    obtain ⟨r2, r3, r4⟩ := block_index n1 i k hi
+    generalize (k + 1) * n1 + i = R at r2 r3 r4 ⊢
+    have r2' : n1 ≤ R := by omega
+    cases l with
+    | zero =>
+      simp only [Nat.zero_mul, Nat.zero_add]
+      unfold matern52GradBlocks
+      simp only [nth2, hj, hj', r2, r2', r3, r4, not_true_eq_false, not_false_eq_true,
+        false_and, and_false, and_self, and_true, true_and, if_false, if_true, hv]
+      simp only [matern52GradEntry, gradOuter, gl k (by omega)]
+      simp only [nth, exp_real, sqrt_real, lit_real, npow_real, sq_real]
+      push_cast; ring
+    | succ l =>
+      obtain ⟨c2, c3, c4⟩ := block_index n2 j l hj
+      generalize (l + 1) * n2 + j = C at c2 c3 c4 ⊢
+      have c2' : n2 ≤ C := by omega
+      unfold matern52GradBlocks
+      simp only [nth2, r2, r2', r3, r4, c2, c2', c3, c4, not_true_eq_false, not_false_eq_true,
+        false_and, and_false, and_self, and_true, true_and, if_false, if_true, hv]
+      simp only [matern52GradEntry, gradOuter, delta, gl k (by omega), gl l (by omega)]
+      simp only [nth, exp_real, sqrt_real, lit_real, npow_real, sq_real]
+      by_cases hkl : k = l
+      · subst hkl; simp only [if_true]; push_cast; ring
+      · simp only [if_neg hkl]; push_cast; ring
+
+end generatedAxes
 
 /-! ### sums, products, scalings, structure wrappers (hold for every scalar type, also the executed `Float`) -/
 
@@ -679,5 +959,14 @@ example : ∀ x : ℝ, HasDerivAt (fun x => rbfGradEntry ([1, 2] : List ℝ) (([
   (rbfGrad_entries_are_partials [1, 2] [0, 1] [1, 0] 0 1 (by simp) (by simp) (by simp) (by simp) (by simp) (by simp)).1
 example : esymmNG ([2, 3, 5] : List ℝ) 2 = 2 * 3 + 2 * 5 + 3 * 5 := by
   rw [newton_girard_identity]; simp [esymm]; ring
+
+-- hypotheses of the axis-aware generated-kernel theorems are satisfiable
+example : ([1, 0] : List ℝ).length / 2 * 2 = ([1, 0] : List ℝ).length ∧
+    dot ([1, 0] : List ℝ) [0, 1] ≤ ((([1, 0] : List ℝ).length / 2 : ℕ) : ℝ) ∧
+    dot ([1, 0] : List ℝ) [1, 0] = ((([1, 0] : List ℝ).length / 2 : ℕ) : ℝ) := by
+  refine ⟨by simp, ?_, ?_⟩ <;> simp [dot_cons, dot_nil_left]
+example : ∀ k, (fun t _ => t : ℝ → ℝ → ℝ) (nth ([1 / 2, 1 / 3] : List ℝ) k) (1 / 10 ^ 6) = nth ([1 / 2, 1 / 3] : List ℝ) k :=
+  fun _ => rfl
+example : ([1, 2] : List ℝ).length ≠ 1 := by simp
 
 end C05
